@@ -63,6 +63,14 @@ def gen(rng, tier, index):
         }
     n = int(rng.choice([5, 20, 60, 150, 300]))
     mode = str(rng.choice(["forward", "backward", "random", "boundary", "mixed"]))
+    if rng.random() < 0.12:
+        # axis-aligned joint sampled in steps of an eighth / a twelfth of a turn: every quarter and half turn is hit
+        # EXACTLY (rotation matrices with entries 0, +-1; projections exactly zero, including -0.0 / +0.0)
+        plan.update(sub1="origin", p2=[1.0, 0.0, 0.0, 0.0], pJ=None, rJ=None, exact=True)
+        plan.pop("motion", None)
+        sub1 = "origin"
+        mode = "exact"
+        step = float(rng.choice([np.pi / 4, np.pi / 6]))
     ops = []
     phi = 0.0
     lim = HALF_PI - 1e-6
@@ -70,7 +78,9 @@ def gen(rng, tier, index):
         x = rng.random()
         if x < 0.72:
             m = mode if mode != "mixed" else str(rng.choice(["forward", "backward", "random", "boundary"]))
-            if m == "forward":
+            if m == "exact":
+                d = step * float(rng.choice([1.0, 1.0, 1.0, -1.0])) * (1.0 if len(ops) % 40 < 25 else -1.0)
+            elif m == "forward":
                 d = float(rng.uniform(0.3, lim))
             elif m == "backward":
                 d = -float(rng.uniform(0.3, lim))
@@ -102,6 +112,8 @@ def gen(rng, tier, index):
             ops.append({"op": "reset", "via": str(rng.choice(["joint", "system"]))})
     plan["ops"] = ops
     plan["scale"] = [float(x) for x in rng.uniform(0.5, 2.0, 2)]
+    if plan.get("exact"):
+        plan["scale"] = [1.0, 1.0]
     return plan
 
 
@@ -180,7 +192,13 @@ class Rig:
             r1 = Rw @ self.r10 + tw if self.body1 else np.zeros(3)
         A_IJ1 = A1 @ self.A_K1J
         rJ = r1 + A1 @ self.B1_r
-        A_IJ2 = A_IJ1 @ rot.rot_axis(self.c, phi)
+        Rphi = rot.rot_axis(self.c, phi)
+        if self.plan.get("exact"):
+            kq = np.round(phi / HALF_PI)
+            if abs(phi - kq * HALF_PI) < 1e-12:
+                # an exact quarter / half / full turn: entries exactly 0 and +-1
+                Rphi = np.round(Rphi)
+        A_IJ2 = A_IJ1 @ Rphi
         A2 = A_IJ2 @ self.A_K2J.T
         r2 = rJ - A2 @ self.B2_r
         q2 = np.concatenate([r2, scale[1] * rot.mat_to_quat(A2)])
@@ -206,6 +224,8 @@ def execute(plan, out, log):
     kinds = set()
     max_fwd = max_bwd = 0
     boundary = False
+    if plan.get("exact"):
+        out["probes"]["exact_boundary_history"] += 1
     reset_quadrants = set()
     last_quadrant = 1
     changes = 0
